@@ -212,11 +212,30 @@ def instructions(ctx: Ctx):
                           why_bad=flow.dump(res)[:200], construct=f"{cls.name}:prev-state")
 
 
-def dropoff(ctx: Ctx):
-    """D5: drop_off_trip succeeds only if no passenger's destination differs from the vehicle's cell."""
+def dropoff(ctx: Ctx, only_reasons: bool = False):
+    """D5: drop_off_trip succeeds only if no passenger's destination differs from the vehicle's cell.
+    only_reasons (C03's other direction): it REFUSES for no other reason than a missing vehicle or a misplaced passenger — a drop-off
+    refused for anything else (who was dispatched, a flag on the request) leaves passengers on board at their destination for good."""
     fn = ctx.repo.func(SOPS, "drop_off_trip")
     sim, env, vid, req = fn.params[:4]
     veh = f"{sim}.vehicles.get({vid})"
+    if only_reasons:
+        for p in flow.paths(fn.node):
+            if p.kind == "raise" or (p.kind == "return" and flow.classify_result(p.value) in ("error", "reject")):
+                deciding = [c for c in p.conds if isinstance(c.pol, bool) and c.test is not None and flow._const_truth(c.test) is None]
+                if not deciding:
+                    continue
+                last = deciding[-1]
+                d = flow.dump(last.test)
+                accepted = (d in (veh, f"not {veh}", f"{veh} is None", f"{veh} is not None") or
+                            ("$elem(" + req + ".passengers).destination" in d and f"{veh}.geoid" in d) or
+                            (".destination" in d and f"{veh}.geoid" in d and f"{req}.passengers" in d))
+                ctx.check(accepted, "D5", "GD.dropoff", "drop_off_trip refuses only for a missing vehicle or a passenger who is not at the destination", fn, p.end,
+                          why_ok=f"refusal decided by `{d[:80]}`",
+                          why_bad=f"refusal decided by `{('' if last.pol else 'not ') + d[:160]}`: with every passenger at the destination the drop-off still fails, in this step and every later one "
+                                  f"(the vehicle's update is rolled back), so the request is never dropped off",
+                          construct=f"drop_off_trip:refusal:{d[:100]}")
+        return
     ok_paths = [p for p in flow.paths(fn.node) if p.kind == "return" and flow.classify_result(p.value) == "ok"]
     ctx.require(len(ok_paths) >= 1, "drop_off_trip has no success path")
     # the loop with the rejecting return must exist on the way to success
